@@ -274,14 +274,16 @@ func (m *simMaster) onPacket(seq byte, body []byte) {
 	}
 }
 
-func (m *simMaster) fakeRotate(file string, pos uint64) []byte {
+// fakeRotate: the dump thread builds it with the checksum setting it currently
+// holds, i.e. that of the file it has been reading so far.
+func (m *simMaster) fakeRotate(file string, pos uint64, withCk bool) []byte {
 	cfg := &m.h.Cfg
-	return encodeEvent(0, evRotate, cfg.MasterID, 0, flagArtificial, rotateBody(pos, file), cfg.Checksum)
+	return encodeEvent(0, evRotate, cfg.MasterID, 0, flagArtificial, rotateBody(pos, file), withCk)
 }
 
-func (m *simMaster) heartbeat(file string, pos uint32) []byte {
+func (m *simMaster) heartbeat(file string, pos uint32, withCk bool) []byte {
 	cfg := &m.h.Cfg
-	return encodeEvent(0, evHeartbeat, cfg.MasterID, pos, 0, []byte(file), cfg.Checksum)
+	return encodeEvent(0, evHeartbeat, cfg.MasterID, pos, 0, []byte(file), withCk)
 }
 
 // startDump validates the coordinate and builds the whole outgoing stream.
@@ -323,7 +325,11 @@ func (m *simMaster) startDump(d *DumpReq, seq byte) {
 		if f == fi {
 			start = d.Offset
 		}
-		add(m.fakeRotate(file.Name, uint64(start)), nil, "fake-rotate")
+		ck := file.Checksum
+		if f > fi {
+			ck = h.Files[f-1].Checksum
+		}
+		add(m.fakeRotate(file.Name, uint64(start), ck), nil, "fake-rotate")
 		fde := file.Head[0]
 		if start > 4 {
 			// the dump thread sends the format description with next_position 0
@@ -336,12 +342,12 @@ func (m *simMaster) startDump(d *DumpReq, seq byte) {
 			}
 			if m.plan.Heartbeat > 0 && e.Unit != lastUnit && e.Unit >= 0 && e.Offset == h.Units[e.Unit].Start {
 				if hb.next()%uint64(m.plan.Heartbeat) == 0 {
-					add(m.heartbeat(file.Name, e.Offset), nil, "heartbeat")
+					add(m.heartbeat(file.Name, e.Offset, file.Checksum), nil, "heartbeat")
 				}
 			} else if m.plan.Heartbeat > 0 && m.plan.HeartbeatAnywhere && e.Unit >= 0 && e.Offset > start {
 				// a slow master: heartbeats between any two events, also inside a transaction
 				if hb.next()%uint64(m.plan.Heartbeat*4) == 0 {
-					add(m.heartbeat(file.Name, e.Offset), nil, "heartbeat")
+					add(m.heartbeat(file.Name, e.Offset, file.Checksum), nil, "heartbeat")
 				}
 			}
 			lastUnit = e.Unit
@@ -403,7 +409,14 @@ func (m *simMaster) startDump(d *DumpReq, seq byte) {
 			q := "INSERT INTO t VALUES (1)"
 			body = append([]byte{byte(len(q))}, q...)
 		}
-		raw := encodeEvent(1500000000, p.BadType, h.Cfg.MasterID, 0, 0, body, h.Cfg.Checksum)
+		// the injected event follows the checksum setting in force at that point of the stream
+		ckAt := h.Files[fi].Checksum
+		for k := 0; k < at && k < len(pk); k++ {
+			if pk[k].ev != nil {
+				ckAt = h.Files[pk[k].ev.File].Checksum
+			}
+		}
+		raw := encodeEvent(1500000000, p.BadType, h.Cfg.MasterID, 0, 0, body, ckAt)
 		insert(wirePacket{payload: append([]byte{0}, raw...), kind: "unsupported"})
 	}
 	// serialise
